@@ -28,7 +28,7 @@ TDots == [name |-> "dots", maxlen |-> 3, paths2 |-> { <<"x">>, <<"...", "x">>, <
 const_TreesQuick == <<TOps, TSmall, TDots>>
 const_TreesThorough == <<TOps3, TSmall, TDots>>
 
-CreateOps == { [op |-> "create", kind |-> k] : k \in {"file", "dir", "fifo", "lnk", "hard"} }
+CreateOps == { [op |-> "create", kind |-> k] : k \in {"file", "dir", "fifo", "lnk", "hard", "chr", "blk"} }
 CFOps == { [op |-> "create_file", acc |-> "RDWR", excl |-> x, opath |-> FALSE, odir |-> FALSE] : x \in BOOLEAN }
          \cup { [op |-> "create_file", acc |-> "RDONLY", excl |-> FALSE, opath |-> TRUE, odir |-> d] : d \in BOOLEAN }
          \cup { [op |-> "create_file", acc |-> "RDWR", excl |-> FALSE, opath |-> FALSE, odir |-> TRUE] }
